@@ -70,6 +70,22 @@ func validateJSONPatches(patches []byte) error {
 		if strings.HasPrefix(path, "/"+document.PublicKeyProperty) {
 			return fmt.Errorf("%s: cannot modify public keys", patch.JSONPatch)
 		}
+
+		// move takes its source out of the document: the source must not be a key or a service either
+		if fromMsg, ok := p["from"]; ok && fromMsg != nil {
+			var from string
+			if err := json.Unmarshal(*fromMsg, &from); err != nil {
+				return fmt.Errorf("%s: invalid from", patch.JSONPatch)
+			}
+
+			if strings.HasPrefix(from, "/"+document.ServiceProperty) {
+				return fmt.Errorf("%s: cannot modify services", patch.JSONPatch)
+			}
+
+			if strings.HasPrefix(from, "/"+document.PublicKeyProperty) {
+				return fmt.Errorf("%s: cannot modify public keys", patch.JSONPatch)
+			}
+		}
 	}
 
 	return nil
